@@ -138,7 +138,8 @@ let run_script (cfgline : string) (lines : string list) =
             | "remove" -> ORemove (n "k", n "h")
             | "clear" | "dropcache" -> OClear
             | "resize" -> OResize (n "cap", vs)
-            | "evict_all" | "flush" -> OEvictAll vs
+            | "evict_all" -> OEvictAll vs
+            | "flush" -> OFlush vs
             | "clone" -> OClone (n "h", n "h2")
             | "drop" -> ODrop (n "h")
             | _ -> failwith ("op " ^ name) in
